@@ -289,4 +289,101 @@ theorem C05_from_zero_within_one (rnd : Rat → Rat) (u : Rat) (h : StdModel rnd
     (by rw [abs_of_nonneg (by omega)]; exact hc') (by rw [abs_of_nonneg (by omega)]; exact hT')]
   exact ceil_within_one _ _ (lt_of_le_of_lt (C05_from_zero_float_error rnd u h R c T hR hc hT) hbudget)
 
+/-! ### Sufficiency of the float result inside the granularity region -/
+
+/-- If `y` is within `e` of `x`, and `x` exceeds every integer below its ceiling by more than `e`,
+    then `⌈y⌉ ≥ ⌈x⌉`. -/
+theorem ceil_le_of_gap (x y e : Rat) (h : |y - x| ≤ e) (hgap : e < x - ((x.ceil - 1 : Int) : Rat)) : x.ceil ≤ y.ceil := by
+  have hy := Rat.le_ceil (x := y)
+  have habs := abs_le.mp h
+  -- x.ceil - 1 < y ≤ ⌈y⌉
+  have h1 : ((x.ceil - 1 : Int) : Rat) < y := by linarith
+  have h2 : ((x.ceil - 1 : Int) : Rat) < ((y.ceil : Int) : Rat) := lt_of_lt_of_le h1 hy
+  have : x.ceil - 1 < y.ceil := by exact_mod_cast h2
+  omega
+
+/-- The exact value to be ceiled, for `n` equal nodes of size `s`: `X = 100R/(sT) − n`; it exceeds
+    every integer below it by at least `1/(sT)` (the numerator is an integer). -/
+theorem exact_gap (n s T R : Int) (hn : 1 ≤ n) (hs : 1 ≤ s) (hT : 1 ≤ T) :
+    let X : Rat := (n : Rat) * ((100 * ((R : Rat) / ((n * s : Int) : Rat)) - T) / T)
+    1 / ((s : Rat) * T) ≤ X - ((X.ceil - 1 : Int) : Rat) := by
+  intro X
+  have hnq : (1 : Rat) ≤ n := by exact_mod_cast hn
+  have hsq : (1 : Rat) ≤ s := by exact_mod_cast hs
+  have hTq : (1 : Rat) ≤ T := by exact_mod_cast hT
+  have hn0 : (n : Rat) ≠ 0 := by linarith
+  have hs0 : (s : Rat) ≠ 0 := by linarith
+  have hT0 : (T : Rat) ≠ 0 := by linarith
+  have hsT : (0 : Rat) < (s : Rat) * T := by positivity
+  have hX : X = ((100 * R - n * (s * T) : Int) : Rat) / ((s : Rat) * T) := by
+    simp only [X]; push_cast; field_simp
+  -- k = ⌈X⌉ − 1 < X
+  have hk : ((X.ceil - 1 : Int) : Rat) < X := by
+    have := (Rat.lt_ceil_iff (x := X) (y := X.ceil - 1)).mp (by omega)
+    exact this
+  generalize X.ceil - 1 = k at hk ⊢
+  -- numerator of X − k
+  have hnum : X - (k : Rat) = ((100 * R - n * (s * T) - k * (s * T) : Int) : Rat) / ((s : Rat) * T) := by
+    rw [hX]; push_cast; field_simp
+  rw [hnum]
+  have hpos : (0 : Rat) < ((100 * R - n * (s * T) - k * (s * T) : Int) : Rat) / ((s : Rat) * T) := by
+    rw [← hnum]; linarith
+  have hM : (0 : Rat) < ((100 * R - n * (s * T) - k * (s * T) : Int) : Rat) := by
+    by_contra hcon
+    have : ((100 * R - n * (s * T) - k * (s * T) : Int) : Rat) / ((s : Rat) * T) ≤ 0 :=
+      div_nonpos_of_nonpos_of_nonneg (not_lt.mp hcon) (le_of_lt hsT)
+    linarith
+  have hM1 : (1 : Rat) ≤ ((100 * R - n * (s * T) - k * (s * T) : Int) : Rat) := by
+    have : (0 : Int) < 100 * R - n * (s * T) - k * (s * T) := by exact_mod_cast hM
+    have : (1 : Int) ≤ 100 * R - n * (s * T) - k * (s * T) := by omega
+    exact_mod_cast this
+  exact div_le_div_of_nonneg_right hM1 (le_of_lt hsT)
+
+/-- **C05 (float result sufficient).** For `n` equal nodes of size `s`: whenever the error budget is
+    below the granularity `1/(s·T)` of the exact value — with u = 2⁻⁵³: `(8·N* + 4·n)·s·T < 2⁵³` — the
+    float pipeline never requests fewer nodes than the exact minimal sufficient count. Outside that
+    region it can (finding T2, `C05_float_short_witness`). -/
+theorem C05_float_sufficient (rnd : Rat → Rat) (u : Rat) (h : StdModel rnd u) (n R s T : Int)
+    (hn : 1 ≤ n) (hn' : n ≤ 2 ^ 53) (hR : 0 ≤ R) (hR' : R ≤ 2 ^ 53) (hs : 1 ≤ s) (hC' : n * s ≤ 2 ^ 53)
+    (hT : 1 ≤ T) (hT' : T ≤ 2 ^ 53)
+    (hgran : (n : Rat) / T * (8 * u * (100 * ((R : Rat) / ((n * s : Int) : Rat))) + 4 * u * T) < 1 / ((s : Rat) * T)) :
+    ((n : Rat) * ((100 * ((R : Rat) / ((n * s : Int) : Rat)) - T) / T)).ceil ≤ neededFromPct rnd n (pct1 rnd R (n * s)) T := by
+  have hC : 1 ≤ n * s := by nlinarith
+  have e := neededFromPct_eq_ceil_raw rnd u h n R (n * s) T
+    (by rw [abs_of_nonneg (by omega)]; exact hn') (by rw [abs_of_nonneg hR]; exact hR')
+    (by rw [abs_of_nonneg (by omega)]; exact hC') (by rw [abs_of_nonneg (by omega)]; exact hT')
+  rw [e]
+  apply ceil_le_of_gap _ _ _ (C05_float_error rnd u h n R (n * s) T hn hR hC hT)
+  exact lt_of_lt_of_le hgran (exact_gap n s T R hn hs hT)
+
+/-- **C05 for the float pipeline, inside the region:** the count after the scale-up, `n + delta`, lies
+    in `[N, N+1]` for `N = ⌈100·R/(s·T)⌉`, the minimal sufficient count (`C05_ceil_sufficient_minimal`). -/
+theorem C05_float_full_in_region (rnd : Rat → Rat) (u : Rat) (h : StdModel rnd u) (n R s T : Int)
+    (hn : 1 ≤ n) (hn' : n ≤ 2 ^ 53) (hR : 0 ≤ R) (hR' : R ≤ 2 ^ 53) (hs : 1 ≤ s) (hC' : n * s ≤ 2 ^ 53)
+    (hT : 1 ≤ T) (hT' : T ≤ 2 ^ 53)
+    (hgran : (n : Rat) / T * (8 * u * (100 * ((R : Rat) / ((n * s : Int) : Rat))) + 4 * u * T) < 1 / ((s : Rat) * T)) :
+    let N := ((100 * R : Int) / ((s * T : Int) : Rat) : Rat).ceil
+    N ≤ n + neededFromPct rnd n (pct1 rnd R (n * s)) T ∧ n + neededFromPct rnd n (pct1 rnd R (n * s)) T ≤ N + 1 := by
+  intro N
+  have hsq : (1 : Rat) ≤ s := by exact_mod_cast hs
+  have hTq : (1 : Rat) ≤ T := by exact_mod_cast hT
+  have hnq : (1 : Rat) ≤ n := by exact_mod_cast hn
+  have hsT1 : 1 / ((s : Rat) * T) ≤ 1 := by
+    rw [div_le_one (by positivity)]; nlinarith
+  have hC : 1 ≤ n * s := by nlinarith
+  have hsuf := C05_float_sufficient rnd u h n R s T hn hn' hR hR' hs hC' hT hT' hgran
+  have hone := (C05_float_within_one rnd u h n R (n * s) T hn hn' hR hR' hC hC' hT hT' (lt_of_lt_of_le hgran hsT1)).2
+  -- the exact ceiling is N − n
+  have hn0 : (n : Rat) ≠ 0 := by linarith
+  have hs0 : (s : Rat) ≠ 0 := by linarith
+  have hT0 : (T : Rat) ≠ 0 := by linarith
+  have key : (n : Rat) * ((100 * ((R : Rat) / ((n * s : Int) : Rat)) - T) / T) =
+      ((100 * R : Int) : Rat) / ((s * T : Int) : Rat) - (n : Rat) := by
+    push_cast; field_simp
+  rw [key, ceil_sub_int] at hsuf
+  simp only [key, ceil_sub_int] at hone
+  constructor
+  · simp only [N]; omega
+  · simp only [N]; omega
+
 end Esc.P
